@@ -3,6 +3,7 @@ package main
 import (
 	"fmt"
 	"strings"
+	"sync"
 	"time"
 
 	"aaverif/internal/plan"
@@ -313,6 +314,61 @@ func checkC06(e *Env) {
 				smp.Add(map[string]any{"n": x.n, "language": ref.Names[x.lang], "class": x.class, "steps": x.steps, "data_len": len(x.data), "source_reads": r.Reads, "out": preview(out), "err": errText(r.Err)})
 			}
 		}
+	})
+
+	// the FIRST call of a fresh process (and the second and third): lazily initialised state,
+	// probes of the source and one-time set-up show only there
+	firstCalls := 0
+	var fmu sync.Mutex
+	parallel(e.pick(120, 1200), e.Workers, func(pi int) {
+		r := rng.New(e.Seed, "C06-first-"+itoa(pi))
+		var ops []plan.Op
+		var exps []c06exp
+		for k := 0; k < 3; k++ {
+			n := ref.WordCounts[(pi+k)%5]
+			need := n + n/3
+			x := c06exp{n: n, need: need, lang: (pi + 3*k) % ref.NLang, k: -1, frag: "first-calls"}
+			x.data = r.Bytes(need + []int{0, 0, 5, 16}[(pi/5+k)%4])
+			switch (pi/20 + k) % 4 {
+			case 1:
+				for d := 0; d < need; d++ {
+					x.steps = append(x.steps, plan.Step{N: 1})
+				}
+			case 2:
+				x.steps = []plan.Step{{N: need / 2}, {N: 0}, {N: need - need/2}}
+			case 3:
+				x.k, x.kind = need/2, "custom"
+				x.steps = []plan.Step{{N: need / 2, E: "custom"}}
+			}
+			x.class = classify(x.data, x.steps, need)
+			ops = append(ops, plan.Op{I: k, Fn: "new", L: int64(x.lang), N: int64(n), Src: &plan.Src{Data: hx(x.data), Steps: x.steps}})
+			exps = append(exps, x)
+		}
+		res, died := e.RunProc(drv, ops, nil, 0)
+		if died != "" {
+			e.Violate(&Violation{What: "a fresh process died in its first NewMnemonic calls: " + oneLine(died, 300), Ops: ops[:min(len(res)+1, len(ops))]})
+			return
+		}
+		for i := range res {
+			x, r := exps[i], &res[i]
+			out := string(unhex(r.Out))
+			bad := ""
+			switch {
+			case r.Panic != "":
+				bad = "panicked: " + oneLine(r.Panic, 200)
+			case x.class == "must-succeed" && (r.Err != nil || out != e.Model.Enc(x.data[:x.need], x.lang)):
+				bad = fmt.Sprintf("returned (%s, %s), expected the encoding of the first %d bytes the source delivered: %s", preview(out), errText(r.Err), x.need, preview(e.Model.Enc(x.data[:x.need], x.lang)))
+			case x.class == "must-fail" && (r.Err == nil || out != ""):
+				bad = fmt.Sprintf("returned (%s, %s) although the source failed after %d of %d bytes", preview(out), errText(r.Err), x.k, x.need)
+			}
+			if bad != "" {
+				e.Violate(&Violation{What: fmt.Sprintf("call number %d of a fresh process, NewMnemonic(%d, %s): %s", i+1, x.n, ref.Names[x.lang], bad), Ops: ops[:i+1], Observed: r, Detail: "the calls are the first ones of the process"})
+				return
+			}
+		}
+		fmu.Lock()
+		firstCalls += len(res)
+		fmu.Unlock()
 	})
 
 	// histories in one process: failing and succeeding NewMnemonic calls among calls of the
